@@ -1135,7 +1135,7 @@ class Engine:
         # induction on L); when elt is x itself, every element of the result satisfies c.  Either the contract names the predicates
         # (filter_specs: obligation "in every evaluation of the condition at an arbitrary element its truth value is P(x)"); without filter_specs the
         # result stays an opaque list no longer than its source.
-        if len(desc.sources) == 1 and desc.sources[0][0] == 'list' and not desc.enumerate and isinstance(g.target, ast.Name) and len(g.ifs) == 1 and z3.is_expr(x):
+        if len(desc.sources) == 1 and desc.sources[0][0] in ('list', 'values', 'keys') and not desc.enumerate and isinstance(g.target, ast.Name) and len(g.ifs) == 1 and z3.is_expr(x):
             same_elt = isinstance(e.elt, ast.Name) and e.elt.id == g.target.id
             seq = z3.simplify(self.src_seq(desc.sources[0][0], desc.sources[0][1], st))
             spec = (getattr(self.contract, 'filter_specs', None) or {}).get(self.comp_ordinal(e)) if self.contract else None
